@@ -823,10 +823,17 @@ class Body:
         paths: `x.unwrap_or(y)` written out, an if/else): list of forms, or None when one alternative is unreadable."""
         if op['k'] in ('copy', 'move') and not op['place']['p'] and depth < 6:
             ds = self.defs.get(op['place']['l'], [])
-            if len(ds) > 1 and all(kind == 'assign' and not data['place']['p'] and data['rv']['k'] in ('use', 'cast') for (_p, kind, data) in ds):
+            if len(ds) > 1 and all((kind == 'assign' and not data['place']['p'] and data['rv']['k'] in ('use', 'cast')) or kind == 'call' for (_p, kind, data) in ds):
                 out = []
                 for (_p, kind, data) in ds:
-                    a = self.affine_alts(data['rv']['op'], depth + 1)
+                    if kind == 'call':
+                        # `identity(x)` is x; any other call is an opaque leaf
+                        if re.search(r'convert::identity(::<.*>)?$', data.name) and len(data.args) == 1:
+                            a = self.affine_alts(data.args[0], depth + 1)
+                        else:
+                            a = [({('call', strip_generics(data.name)): 1}, 0)]
+                    else:
+                        a = self.affine_alts(data['rv']['op'], depth + 1)
                     if a is None:
                         return None
                     out.extend(x for x in a if x not in out)
